@@ -19,7 +19,7 @@ RULE = ("Hypothesis-generated states of importable classes (default **params sig
         "eval(script_repr()) rebuild an object of the same class with structurally equal parameter values (Python ==, container "
         "types exact, NaN==NaN, auto-generated names ignored). Non-trivial = some non-default value needs care to print (escape, "
         "negative/non-finite number, empty container, 1-tuple, set, nested Parameterized, explicit name, positional "
-        "constructor parameter); distinct = case hash.")
+        "constructor parameter); distinct = case hash. Round 5: constructors with keyword-only arguments; the object printed while another thread (held by the harness inside a registered printer) is printing it too.")
 ASSUMPTIONS = [
     "eval happens in a namespace holding param and the model classes (pprint) / after exec of the emitted import lines (script_repr)",
     "an explicit name of the exact auto-generated form <Class><5 digits> cannot be told from an auto name and is not generated",
